@@ -28,6 +28,11 @@ def file_text(i, uses, own_stmts=True):
         lines.append("from m%d import K%d" % (j, j))
         lines.append("from m%d import fun%d" % (j, j))
     lines.append("class K%d(def v%d: Int)" % (i, i))
+    if i % 2 == 1:
+        # a doc-string that spans lines, not the first thing of the file: its line breaks are copied into the output
+        lines.append('    """ class %d' % i)
+        lines.append("    second line of the doc-string")
+        lines.append('    """')
     lines.append("    def get%d(fin self) -> Int => self.v%d + %d" % (i, i, i))
     lines.append("")
     lines.append("def fun%d(x: Int) -> Int => x * %d" % (i, i + 2))
@@ -89,7 +94,7 @@ def projects(draw):
         "second_run": draw(st.sampled_from([None, None, "shorter", "longer", "same"])),
         "edit_file": draw(st.integers(0, n - 1)),
         "annotate": draw(st.booleans()),
-        "crlf": draw(st.integers(0, 9)) == 0,
+        "crlf": draw(st.integers(0, 3)) == 0,
     }
 
 
